@@ -44,6 +44,7 @@ func NewVerifWire() *VerifWire {
 // Parse runs parser.parse on pkt; returns the accounting items touched (e.g. "tl+") and parse's error.
 func (w *VerifWire) Parse(h Handler, pkt []byte) (string, error) {
 	err := w.p.parse(h, nil, pkt, &w.batch, &w.scratch, "")
+	w.poison()
 	acc := ""
 	for _, it := range w.items {
 		if c := it.v.VerifWireTakeCount(); c != 0 {
@@ -62,3 +63,40 @@ func (w *VerifWire) Parse(h Handler, pkt []byte) (string, error) {
 // VerifFrames is the framing part of TCP.receiveLoop applied to a fully buffered stream: the frames
 // handed to parse, and whether the loop ended with a framing error.
 func VerifMaxTCPFrameBody() int { return MaxTCPFrameBody }
+
+// poison scribbles over everything the reused batch still holds (up to capacity), so that a decoder which
+// forgets to write a field shows stale garbage instead of the previous packet's (often identical) values.
+func (w *VerifWire) poison() {
+	fill := func(b []byte) {
+		b = b[:cap(b)]
+		for i := range b {
+			b[i] = 'Z'
+		}
+	}
+	ms := w.batch.Metrics[:cap(w.batch.Metrics)]
+	for i := range ms {
+		m := &ms[i]
+		m.FieldsMask = 0xffffffff
+		m.Counter = 12345.5
+		m.Ts = 777
+		fill(m.Name)
+		ts := m.Tags[:cap(m.Tags)]
+		for j := range ts {
+			fill(ts[j].Key)
+			fill(ts[j].Value)
+		}
+		vs := m.Value[:cap(m.Value)]
+		for j := range vs {
+			vs[j] = 7.25
+		}
+		us := m.Unique[:cap(m.Unique)]
+		for j := range us {
+			us[j] = -99
+		}
+		hs := m.Histogram[:cap(m.Histogram)]
+		for j := range hs {
+			hs[j] = [2]float64{3.5, 4.5}
+		}
+	}
+	w.batch.FieldsMask = 0xffffffff
+}
